@@ -5,7 +5,8 @@ from tools import coll, vlib
 class C08(vlib.Spec):
     model_vo = ["theories/Coll/ModelGHT.vo"]
     props_vo = "theories/Props/C08.vo"
-    theorems = ["C08_insert", "C08_contains", "C08_iter_nodup", "C08_pcmp", "C08_pcmp_refuted"]
+    theorems = ["C08_history", "C08_insert", "C08_contains", "C08_iter_nodup", "C08_merge", "C08_pcmp", "C08_eq",
+                "C08_prefix", "C08_find_leaf", "C08_holds_b_sound", "C08_pcmp_refuted"]
     crate, group, binary = "h_coll", "light", "h_coll"
     imports = "From HV Require Import Coll.ModelGHT."
     harness_shards = 4
